@@ -28,6 +28,12 @@ Threads run one of these programs:
 * `client g batch`   — `async_iterate`: `init_generator(g)`, then `next_batch_from_generator(batch)` until
                        an end marker or an exception arrives, yielding the elements;
 * `initIter g`       — one `init_generator` request;    `nextBatch n` — one `next_batch_from_generator`;
+* `initFail e cl`    — one `init_generator` request whose lazy object cannot be turned into a generator:
+                       `lazy_fns.maybe_make` raises (`e = value`: the constructor's exception) or builds a value
+                       that is not an `Iterable` (`e = type`; courier_server.py:415-417).  The handler raises
+                       under the generator lock AFTER the previous generator has been stopped and BEFORE anything
+                       is installed; `cl = true`: the request is the `init_generator` of a client loop
+                       (`async_iterate` re-raises the failed call and never asks for a batch);
 * `stopPrefetch f`   — one `stop_prefetch` request;      `shutdown`    — one `shutdown` request;
 * `producer k`       — the prefetch thread of the k-th queue (spawned by `_init_iterator`).
 -/
@@ -43,6 +49,7 @@ inductive Prog where
   | main
   | client (g : Gen) (batch : Nat)
   | initIter (g : Gen)
+  | initFail (e : ErrKind) (asClient : Bool)
   | nextBatch (batch : Nat)
   | stopPrefetch (fatal : Bool)
   | shutdown
@@ -191,10 +198,17 @@ def install (s : Shared) (t : Thread) : Shared × Thread :=
   let k := s.qs.length
   ({ s with qs := s.qs ++ [freshQueue s.prefetch], generator := some k }, { t with pc := .iiSpawn, g := k })
 
+/-- `_init_iterator` after the previous generator is stopped when `lazy_fns.maybe_make(maybe_lazy)` raises or
+its value is not an `Iterable` (courier_server.py:415-417): NOTHING is installed — `self._generator` and
+`self._enqueue_thread` keep pointing to the stopped generator (or `None`) —, the `with` block releases the
+generator lock and the exception leaves the handler -/
+def failInit (t : Thread) (e : ErrKind) : Thread := { t with pc := .lkRel, ret := some e }
+
 /-- where a locked stop continues when there is nothing (more) to stop -/
 def afterStop (s : Shared) (t : Thread) : Shared × Thread :=
   match t.prog with
   | .client _ _ | .initIter _ => install s t
+  | .initFail e _ => (s, failInit t e)
   | _ => (s, { t with pc := .lkRel })
 
 def setTh (c : Cfg) (tid : Tid) (s : Shared) (t : Thread) : Cfg := { sh := s, ths := c.ths.set tid t }
@@ -218,7 +232,7 @@ def step (c : Cfg) (tid : Tid) : Option (String × Cfg) :=
       if !s.serverUp then some ("start", setTh c tid s { t with pc := .done, outcome := some (.err .other) })
       else some ("start", setTh c tid s { t with pc := .lkAcq })
     | .nextBatch n => some ("start", setTh c tid s (callNext s t n))
-    | .client _ _ | .initIter _ =>
+    | .client _ _ | .initIter _ | .initFail _ _ =>
       if !s.serverUp then some ("start", setTh c tid s { t with pc := .done, outcome := some (.err .other) })
       -- courier_server.py:402-403
       else if s.shutdownRequested then
@@ -265,6 +279,13 @@ def step (c : Cfg) (tid : Tid) : Option (String × Cfg) :=
         if t1.pc == .iiSpawn then
           let (s2, t2) := install s1 t
           some ("acquire gen", setTh c tid s2 t2)
+        else some ("acquire gen", setTh c tid s1 t1)
+    | .initFail e _ =>
+      -- same handler; the construction fails once the previous generator is stopped
+      if s.shutdownRequested then some ("acquire gen", setTh c tid s1 { t with pc := .lkRel, ret := some .timeout })
+      else
+        let t1 := beginStop s1 t .timeout .lkRel
+        if t1.pc == .lkRel then some ("acquire gen", setTh c tid s1 (failInit t e))
         else some ("acquire gen", setTh c tid s1 t1)
     | .stopPrefetch fatal =>
       some ("acquire gen", setTh c tid s1 (beginStop s1 t (if fatal then .runtime else .timeout) .lkRel))
